@@ -120,16 +120,19 @@ def make_problem(n, lo, hi, desc, fail_at=None, exc='RuntimeError', answers=None
             self.lowerBoundOfFloatVariables = np.array(lo, dtype=np.double)
             self.upperBoundOfFloatVariables = np.array(hi, dtype=np.double)
             self.log = []
+            self.answers = []     # every call in order: ('v', value) or ('raise',)
             self.calls = 0
             self.desc = desc
 
         def Calculate(self, point, functionValue):
             self.calls += 1
             if fail_at is not None and self.calls == fail_at:
+                self.answers.append(('raise',))
                 raise excs[exc]('injected failure at call %d' % self.calls)
             y = [float(v) for v in point.floatVariables]
             v = f(y)
             self.log.append((y, v))
+            self.answers.append(('v', v))
             functionValue.value = v
             return functionValue
 
